@@ -1,0 +1,61 @@
+//go:build verif
+// +build verif
+
+package isaacstates
+
+import (
+	"time"
+
+	"github.com/pkg/errors"
+	"github.com/spikeekips/mitum/base"
+	"github.com/spikeekips/mitum/isaac"
+)
+
+func verifBareVoteproofHandler(
+	pps *isaac.ProposalProcessors, local base.LocalNode, networkID base.NetworkID,
+) *voteproofHandler {
+	args := newVoteproofHandlerArgs()
+	args.ProposalProcessors = pps
+	args.NodeInConsensusNodesFunc = func(base.Node, base.Height) (base.Suffrage, bool, error) {
+		return nil, false, nil
+	}
+	args.prepareNextBlockBallot = func(base.ACCEPTVoteproof, base.Suffrage, time.Duration) error { return nil }
+
+	st := newVoteproofHandler(StateConsensus, networkID, local, &args)
+	st.switchStateFunc = func(switchContext) error { return nil }
+
+	return st
+}
+
+func verifSwitchResult(saved bool, err error) (bool, StateType, error) {
+	var sctx switchContext
+	if errors.As(err, &sctx) {
+		return saved, sctx.next(), nil
+	}
+
+	return saved, StateEmpty, err
+}
+
+// VerifACCEPTAfterProcessingProposal runs the real
+// voteproofHandler.handleACCEPTVoteproofAfterProcessingProposal (the check
+// "ACCEPT majority new block == manifest of the processed proposal", then
+// saveBlock) on a bare consensus handler wired to pps. next is the state the
+// handler asks to move to, if any.
+func VerifACCEPTAfterProcessingProposal(
+	pps *isaac.ProposalProcessors, local base.LocalNode, networkID base.NetworkID,
+	manifest base.Manifest, avp base.ACCEPTVoteproof,
+) (saved bool, next StateType, _ error) {
+	st := verifBareVoteproofHandler(pps, local, networkID)
+
+	return verifSwitchResult(st.handleACCEPTVoteproofAfterProcessingProposal(manifest, avp))
+}
+
+// VerifSaveBlock runs the real voteproofHandler.saveBlock (the path of an
+// expected ACCEPT voteproof arriving after the proposal was processed).
+func VerifSaveBlock(
+	pps *isaac.ProposalProcessors, local base.LocalNode, networkID base.NetworkID, avp base.ACCEPTVoteproof,
+) (saved bool, next StateType, _ error) {
+	st := verifBareVoteproofHandler(pps, local, networkID)
+
+	return verifSwitchResult(st.saveBlock(avp))
+}
